@@ -66,12 +66,25 @@ Definition anchor_of (u : Z) (with_prov : bool) (cr re up de : list qbop) (n : n
 
 (* special case in PrepareTxnFiles: no chunk / provisional files when every queued operation is an
    included deactivate *)
-Definition prepare (u : Z) (ops : list qbop) : anchor * parsed :=
-  let p := parse_ops [] ops in
+Definition prepare_files (u : Z) (ops : list qbop) (p : parsed) : anchor :=
   let inc := p_included p in
   let de := of_type Deactivate inc in
-  (anchor_of u (negb (Nat.eqb (length de) (length ops)))
-             (of_type Create inc) (of_type Recover inc) (of_type Update inc) de (length inc), p).
+  anchor_of u (negb (Nat.eqb (length de) (length ops)))
+            (of_type Create inc) (of_type Recover inc) (of_type Update inc) de (length inc).
+
+(* F16 (repaired code): when every queued operation has expired (parsedOps.Size() == 0) PrepareTxnFiles writes NO file
+   and returns an EMPTY anchor string (with the expired operations): no file to read, a string that is not
+   "<positive integer>.<uri>", count 0 - nothing to read back.  The batch writer anchors nothing for it. *)
+Definition no_file {A} : raw A :=
+  {| f_read_ok := false; f_raw_size := 0; f_decomp_ok := false; f_size := 0; f_parsed := None |}.
+Definition no_anchor : anchor := {| a_syntax_ok := false; a_count := 0; a_core := no_file |}.
+
+Definition prepare (u : Z) (ops : list qbop) : anchor * parsed :=
+  let p := parse_ops [] ops in
+  match p_included p with
+  | [] => (no_anchor, p)
+  | _ :: _ => (prepare_files u ops p, p)
+  end.
 
 (* what must be read back *)
 Definition expect (o : qbop) : rop :=
